@@ -52,6 +52,15 @@ def anyNonConforming (env : Env) (f : Fn) (args : List Val) (kw : List (NameId Ã
 def positionalBad (env : Env) (f : Fn) (t : Truth) (args : List Val) : Bool :=
   ((args.drop t.implicit).zip f.plain).any (fun vp => match vp.2.ann with | some a => !conforms env a vp.1 | none => false)
 
+/-- C03 for positional calls (dunder methods such as `__call__` / `__getitem__`, functions with `*args`, positional-only
+    parameters): the first `k` declared parameters take the `k` positional values (Python's own binding), none of them has a
+    default or is also given by keyword, and one of the values does not conform.  (A positional value for a *defaulted*
+    parameter is outside the enumeration of C03's statement and outside this predicate: DESIGN Â§I.7.) -/
+def positionalPrefixBad (env : Env) (f : Fn) (t : Truth) (args : List Val) (kw : List (NameId Ã— Val)) : Bool :=
+  let pos := args.drop t.implicit
+  ((f.plain.take pos.length).all fun p => p.dflt.isNone && (lookup kw p.name).isNone) &&
+  (pos.zip f.plain).any (fun vp => match vp.2.ann with | some a => !conforms env a vp.1 | none => false)
+
 /-- C03: the produced value does not conform to the return annotation -/
 def badProduced (env : Env) (f : Fn) (body : BodyOut) : Bool :=
   match body, f.retAnn with
